@@ -23,6 +23,18 @@ class BooleanEncoder(encoder.IntegerEncoder):
         return substrate, False, False
 
 
+class BitStringEncoder(encoder.BitStringEncoder):
+    def encodeValue(self, value, asn1Spec, encodeFun, **options):
+        # the initial octet counts towards the 1000 contents octets
+        # a primitive encoding or a fragment may have (X.690, 9.2)
+        maxChunkSize = options.get('maxChunkSize', 0)
+        if maxChunkSize > 1:
+            options.update(maxChunkSize=maxChunkSize - 1)
+
+        return encoder.BitStringEncoder.encodeValue(
+            self, value, asn1Spec, encodeFun, **options)
+
+
 class RealEncoder(encoder.RealEncoder):
     def _chooseEncBase(self, value):
         m, b, e = value
@@ -289,6 +301,7 @@ TAG_MAP = encoder.TAG_MAP.copy()
 
 TAG_MAP.update({
     univ.Boolean.tagSet: BooleanEncoder(),
+    univ.BitString.tagSet: BitStringEncoder(),
     univ.Real.tagSet: RealEncoder(),
     useful.GeneralizedTime.tagSet: GeneralizedTimeEncoder(),
     useful.UTCTime.tagSet: UTCTimeEncoder(),
@@ -301,6 +314,7 @@ TYPE_MAP = encoder.TYPE_MAP.copy()
 
 TYPE_MAP.update({
     univ.Boolean.typeId: BooleanEncoder(),
+    univ.BitString.typeId: BitStringEncoder(),
     univ.Real.typeId: RealEncoder(),
     useful.GeneralizedTime.typeId: GeneralizedTimeEncoder(),
     useful.UTCTime.typeId: UTCTimeEncoder(),
